@@ -194,10 +194,9 @@ def Wit (s : St) (lb : Min) (j : Nat) : Prop :=
   Tgt c inst j ∨ ∃ (i : Nat) (n : Node), s.graph[i]? = some n ∧ n.goal = j ∧ n.solution = top c ∧ MinLe lb (some i) ∧
     ∀ d, n.stackDepth = some d → flagAt s.stack d
 
-/-- the state invariant -/
+/-- the state invariant (caching may be enabled or not: with `cache = none` nothing is `InCache`) -/
 structure Inv (dom : List Nat) (s : St) : Prop where
   quiet : s.oracle = [] ∧ s.oracleDefault = true ∧ s.interrupted = false
-  cacheOn : ∃ cc, s.cache = some cc
   cacheOK : ∀ k v, InCache s k v → Corr c inst k v
   stackCo : ∀ e, e ∈ s.stack → e.coinductiveGoal = c
   nodup : (s.graph.map (·.goal)).Nodup
@@ -218,6 +217,7 @@ structure Step (s s' : St) (lb : Min) : Prop where
   cacheExt : ∀ k v, InCache s k v → InCache s' k v
   ext : ∀ k v, Def s k v → Def s' k v
   low : ∀ k, Undef s k → Def s' k (bot c) → ¬ InG c inst s k
+  cacheMode : s'.cache.isSome = s.cache.isSome
 
 /-- what a sub-goal call reports about its answer -/
 def Fact (s0 s' : St) (m' : Min) (g : Nat) (v : V) : Prop :=
